@@ -236,8 +236,18 @@ def run(F, R, tier):
         ins = [c for c in H.walk(nb) if c.get("k") == "mcall" and c["m"] == "insert" and len(c.get("args", [])) == 2]
         kv = [(DT.canon_text(c["args"][0]), DT.canon_text(c["args"][1])) for c in ins]
         m_ = re.fullmatch(r"self\.stack\[(\w+)\]", kv[0][0]) if len(kv) == 1 else None
-        ok = "step_by(2)" in t and m_ is not None and kv[0][1] == "self.stack[(%s + 1)]" % m_.group(1)
-        R.ob("vm-operand-order", "build_map takes key = stack[i], value = stack[i + 1], i stepping by 2", ok, "inserts %s; step_by(2): %s" % (kv, "step_by(2)" in t), F.loc(bm))
+        stepping = "step_by(2)" in t
+        if not stepping and m_ is not None:
+            # the same walk written as a counter: starts at the first index, `while i < end`, advanced by 2 once per round
+            iv = m_.group(1)
+            inits = [x for x in H.walk(H.body_of(bm)) if x.get("k") == "let" and x.get("pat", {}).get("name") == iv and x.get("init") is not None]
+            adv = [x for x in H.walk(H.body_of(bm)) if x.get("k") == "assignop" and H.render(x["l"]) == iv]
+            pnames = [p_.get("name") for p_ in bm["hir"]["params"]]
+            conds = [x for x in H.walk(H.body_of(bm)) if x.get("k") == "bin" and x["op"] == "<" and H.render(x["l"]) == iv and H.render(H.strip(x["r"])) in pnames]
+            stepping = len(inits) == 1 and H.render(H.strip(inits[0]["init"])) in pnames and len(adv) == 1 and adv[0]["op"].startswith("+") and \
+                H.render(H.strip(adv[0]["r"])) == "2" and len(conds) >= 1
+        ok = stepping and m_ is not None and kv[0][1] == "self.stack[(%s + 1)]" % m_.group(1)
+        R.ob("vm-operand-order", "build_map takes key = stack[i], value = stack[i + 1], i stepping by 2", ok, "inserts %s; index advanced by 2: %s" % (kv, stepping), F.loc(bm))
     # ---- (ii) literal kinds ---------------------------------------------------------------------------------------------------------------
     for var, ctor in sorted(LITERALS.items()):
         oks, r = paths(var)
